@@ -56,6 +56,7 @@ class HTTP(BaseComponent):
         self._uri = None
         self._clients = {}
         self._buffers = {}
+        self._closing = set()
 
     @property
     def version(self):
@@ -125,6 +126,7 @@ class HTTP(BaseComponent):
             if res.chunked:
                 self.fire(write(sock, b'0\r\n\r\n'))
             if res.close:
+                self._closing.add(sock)
                 self.fire(close(sock))
             if sock in self._clients:
                 del self._clients[sock]
@@ -157,6 +159,7 @@ class HTTP(BaseComponent):
             if hasattr(res.body, 'close'):
                 res.body.close()
             if res.close:
+                self._closing.add(sock)
                 self.fire(close(sock))
             if sock in self._clients:
                 del self._clients[sock]
@@ -198,6 +201,7 @@ class HTTP(BaseComponent):
 
             if not res.stream:
                 if res.close:
+                    self._closing.add(sock)
                     self.fire(close(sock))
                 # Delete the request/response objects if present
                 if sock in self._clients:
@@ -210,6 +214,7 @@ class HTTP(BaseComponent):
             del self._clients[sock]
         if sock in self._buffers:
             del self._buffers[sock]
+        self._closing.discard(sock)
 
     @handler('read')  # noqa
     def _on_read(self, sock, data):
@@ -220,6 +225,10 @@ class HTTP(BaseComponent):
         Split the buffer by the standard HTTP delimiter CRLF and create
         Raw Event per line. Any unfinished lines of text, leave in the buffer.
         """
+        if sock in self._closing:
+            # the response that ends this connection has been sent
+            return None
+
         if sock in self._buffers:
             parser = self._buffers[sock]
         else:
@@ -234,6 +243,7 @@ class HTTP(BaseComponent):
                     del self._buffers[sock]
                 if sock in self._clients:
                     del self._clients[sock]
+                self._closing.add(sock)
                 return self.fire(close(sock))
 
         _scheme = 'https' if self._server.secure else 'http'
